@@ -1,6 +1,8 @@
 //! ilv: drives the real inputlayer code for the TLA+-based checks in /verif.
 #![allow(dead_code)]
 mod engine;
+mod hscen;
+mod matrix;
 mod pool;
 mod prog;
 mod store;
@@ -38,6 +40,8 @@ fn main() {
         "drive-engine" => engine::main(&args),
         "replay-engine" => engine::replay(&args),
         "drive-store" => store::main(&args),
+        "drive-handler" => hscen::main(&args),
+        "dump-matrix" => matrix::main(&args),
         other => {
             eprintln!("unknown subcommand {other}");
             std::process::exit(2);
